@@ -173,6 +173,16 @@ def run(ctx):
         ok_all = g2.path(g2.entry.id, g2.exit.id, blocked={per[0].id}) is None \
             and all(g2.path(b, g2.exit.id, blocked={mod[0].id}) is None or b == mod[0].id
                     for b in g2.succ[per[0].id] if g2.ekind[(per[0].id, b)] == "t")
+    # which entries are folded back: every index that is one (all but the -1 padding), by the number of original atoms - a selection
+    # by magnitude (`> n`, `>= n`) can be right, but then it has to include n itself
+    mod_stmt = mod[0].ast if mod else None
+    sel_ok = False
+    if isinstance(mod_stmt, ast.AugAssign) and isinstance(mod_stmt.op, ast.Mod) and same_expr(mod_stmt.value, "self._orig_length") \
+            and isinstance(mod_stmt.target, ast.Subscript) and same_expr(mod_stmt.target.value, "indices"):
+        sel_ok = any(same_expr(mod_stmt.target.slice, t_) for t_ in ("indices != -1", "indices >= self._orig_length", "indices >= 0", "indices > -1"))
+    ctx.ob("R3.periodic-modulo-selection", CL, "CellList._post_process", "indices[indices != -1] %= self._orig_length", sel_ok,
+           "atom i has the images i + k * n: the image with index exactly n (the first copy of atom 0) must be folded back as well, only the "
+           "padding -1 is left alone", pp.lineno)
     ctx.ob("R3.periodic-modulo-every-result", CL, "CellList._post_process", "every result passes `if self._periodic: indices %= orig_length`", ok_all,
            "a periodic cell list holds 27 images of every atom: index arrays that are returned without the modulo name image atoms "
            "(indices >= the atom count), while the mask form of the same query is right", pp.lineno)
